@@ -308,3 +308,4 @@ also("C12", _Y)
 also("C16", "Also: parser::parse enables the footer-string extensions for Version::V3 only (read from the `== Version::V3` argument or from a match on the version that selects the flag; other spellings are left undecided).")
 also("C16", "Also (error discipline): in validate(), TimeZone::new and parser::parse no path on which an in-crate Result-returning callee came back Err ends in acceptance.")
 also("C18", "Also: a ':'-prefixed TZ value is never read as a POSIX rule (where the colon test holds no path reaches TransitionRule::from_tz_string).")
+also("C18", "Also: wherever the zone cache is built (creation and refresh), the Source remembered for the change test and the zone loaded come from one and the same TZ value.")
